@@ -15,7 +15,7 @@ Definition nth4 (m1 c1 m2 c2 : nat) (blk : list (list (list (list F)))) : F :=
 Definition norm_cont (s : shell F) : list (list F) :=
   let blk := overlap_block K s s in
   mk (nseg s) (fun m => mk (length (comps_of s)) (fun c =>
-    fdiv K (f1 K) (fsqrt K (nth4 m c m c blk)))).
+    fapx K (fdiv K (f1 K) (fsqrt K (nth4 m c m c blk))))).
 
 (* per-shell data used by every assembly *)
 Record pshell := mkP { p_shell : shell F; p_norm : list (list F); p_T : list (list F) }.
@@ -34,8 +34,11 @@ Definition dummy_p : pshell :=
 
 Definition two_symm_integral (basis : list (shell F)) (T : option (list (list F))) : list (list A) :=
   let ps := map prep basis in
-  let m := two_symm_blocks azero (length ps)
-             (fun i j => pblock (nth i ps dummy_p) (nth j ps dummy_p)) in
+  let n := length ps in
+  (* every upper block is evaluated once (as in the code) and looked up afterwards *)
+  let tbl := mk n (fun i => mk n (fun j =>
+               if Nat.leb i j then pblock (nth i ps dummy_p) (nth j ps dummy_p) else [])) in
+  let m := two_symm_blocks azero n (fun i j => nth j (nth i tbl []) []) in
   match T with None => m | Some t => lincomb2 azero aadd ascale t t m end.
 
 Definition two_asymm_integral (b1 b2 : list (shell F)) (T1 T2 : option (list (list F)))
